@@ -364,7 +364,8 @@ def replay_end_to_end(chk, rng, what):
             fr_s = numpy.ones((len(v), 3))
         keys = ["c%d%d" % k.v for k in calc.modulus_keys]
         with numpy.errstate(all="ignore"):
-            iso_ref, adi_ref, _ = PL.real_pipeline(duck, fr_s, keys)
+            iso_ref = {k: PL.reference_phonon(duck, fr_s, k, "iso") for k in keys}     # direct recursion, independent of tasks.py
+            adi_ref = {k: PL.reference_phonon(duck, fr_s, k, "adi") for k in keys}
         for key in calc.modulus_keys:
             k = "c%d%d" % key.v
             for nm, got, ref in (("isothermal", calc._full_modulus._isothermal_phonon_contribution[key], iso_ref[k]),
